@@ -209,15 +209,40 @@ class MockSSLRequest(MockRequest, ssl.SSLSocket):
         pass
 
 
+class _RawWriter(io.RawIOBase):
+    """raw stream over the harness's wfile object (stands for the socket) when the handler class asks for buffering"""
+
+    def __init__(self, w):
+        super().__init__()
+        self.w = w
+
+    def writable(self):
+        return True
+
+    def write(self, b):
+        self.w.write(bytes(b))
+        return len(b)
+
+    def fileno(self):
+        return self.w.fileno()
+
+
 class Handler(GopherRequestHandler):
-    rbufsize = -1
-    wbufsize = -1
+    """The repository's connection handler with only the socket replaced.  The buffering attributes rbufsize / wbufsize
+    are NOT overridden: the client file object is built the way socketserver.StreamRequestHandler.setup() builds it
+    (unbuffered writer for wbufsize == 0, a BufferedWriter otherwise)."""
 
     def __init__(self, request, client_address, server):  # noqa
         self.request = request
         self.client_address = client_address
         self.server = server
-        self.setup()
+        self.connection = request
+        self.rfile = request._rfile
+        if self.wbufsize == 0:
+            self.wfile = request._wfile
+        else:
+            self.wfile = io.BufferedWriter(_RawWriter(request._wfile),
+                                           buffer_size=io.DEFAULT_BUFFER_SIZE if self.wbufsize < 0 else max(1, self.wbufsize))
 
 
 class Result:
